@@ -61,7 +61,7 @@ fn main() {
     let mut rep = Report::new(
         "stressmc",
         "C07",
-        "SAMPLING (not exhaustive): 64 free-running reader threads x 400 seeded reads each over a pack of 60 compressed (zstd) + 40 raw clusters of 4095 30-byte blobs, plus one zero-length content alone in its cluster and one compressible content of 6 MiB, 2 rounds on freshly opened packs; reads = whole stream (also after a first short read) / get_slice / stream of a cut / slice and stream of a cut of a cut; every read is compared with the stored bytes; a 60 s watchdog reports a reader that never returns; a case = one read, non-trivial = a read (all are)",
+        "SAMPLING (not exhaustive): 64 free-running reader threads x 400 seeded reads each over a pack of 60 compressed (zstd) + 40 raw clusters of 4095 30-byte blobs, plus one zero-length content alone in its cluster and one compressible content of 6 MiB, 2 rounds on freshly opened packs; then one deterministic configuration: 20 compressed clusters of 2.5 MiB (more clusters decoding at once than the decompression pool has threads), one reader per cluster reading the head, then all together a window in the middle, then the whole; reads = whole stream (also after a first short read) / get_slice / stream of a cut / slice and stream of a cut of a cut; every read is compared with the stored bytes; a 60 s watchdog reports a reader that never returns; a case = one read, non-trivial = a read (all are)",
     );
     rep.exhaustive = false;
     rep.caps.push("free-running threads: schedules are sampled, not enumerated (the deciding engine for the publication protocol is loommc)".into());
@@ -220,6 +220,73 @@ fn main() {
                 Ok(Ok(())) => {}
                 Ok(Err(e)) => failures.push(e),
                 Err(_) => failures.push("a reader thread panicked".into()),
+            }
+        }
+    }
+    // ---- more simultaneously decoding clusters than pool threads, partial ranges: 20 compressed
+    // clusters of 2.5 MiB each (one content per cluster), one reader per cluster; every reader
+    // reads the head, then (all together) a window in the middle, then the tail and the whole.
+    // A decoder that parks on its pool thread until "its" reader comes back starves the others.
+    {
+        const WIDE: usize = 2_621_440 + 77;
+        let wide_content = |i: u32| -> Vec<u8> { (0..WIDE).map(|k| ((k / 64) as u32).wrapping_mul(2654435761).wrapping_add(i.wrapping_mul(97)).to_le_bytes()[k % 4] & 0x3f | 0x40).collect() };
+        let wpath = dir.path().join("wide.jbkc");
+        let wup = camino::Utf8PathBuf::from_path_buf(wpath.clone()).unwrap();
+        let nw = 20u32;
+        let made = jbkmc::catch(|| -> Result<(), String> {
+            let mut c = jbk::creator::ContentPackCreator::new(&wup, jbk::PackId::from(1), jbk::VendorId::from(VENDOR), Default::default(), Comp::Zstd(1).to_jbk()).map_err(|e| e.to_string())?;
+            for i in 0..nw {
+                c.add_content(Box::new(std::io::Cursor::new(wide_content(i))), jbk::creator::CompHint::Yes).map_err(|e| e.to_string())?;
+            }
+            c.finalize().map_err(|e| e.to_string())?;
+            Ok(())
+        });
+        if !matches!(made, Ok(Ok(()))) {
+            rep.machinery_errors.push(format!("cannot create the pack of wide clusters: {made:?}"));
+        } else {
+            let pack = jbk::FileSource::open(&wpath).map_err(|e| e.to_string()).and_then(|f| jbk::reader::ContentPack::new(jbk::Reader::from(f)).map_err(|e| e.to_string()));
+            match pack {
+                Err(e) => rep.machinery_errors.push(format!("cannot open the pack of wide clusters: {e}")),
+                Ok(pack) => {
+                    let pack = Arc::new(pack);
+                    let _g = jbkmc::watchdog::guard(|| json!({"engine":"stressmc","phase":"20 partially read clusters of 2.5 MiB"}).to_string());
+                    let barrier = Arc::new(std::sync::Barrier::new(nw as usize));
+                    let mut hs = vec![];
+                    for i in 0..nw {
+                        let (pack, barrier, reads) = (pack.clone(), barrier.clone(), reads.clone());
+                        let want = wide_content(i);
+                        hs.push(std::thread::spawn(move || -> Result<(), String> {
+                            let region = pack.get_content(jbk::ContentIdx::from(i)).map_err(|e| format!("wide content {i}: {e}"))?.ok_or_else(|| format!("wide content {i} missing"))?;
+                            let head = region.get_slice(jbk::Offset::zero(), 64).map_err(|e| format!("wide content {i} head: {e}"))?;
+                            if head[..] != want[..64] {
+                                return Err(format!("wide content {i}: head yields other bytes"));
+                            }
+                            drop(head);
+                            barrier.wait();
+                            let mid = 1_300_000usize;
+                            let mut buf = vec![0u8; 1000];
+                            region.cut(jbk::Offset::new(mid as u64), jbk::Size::new(1000)).stream().read_exact(&mut buf).map_err(|e| format!("wide content {i} middle: {e}"))?;
+                            if buf[..] != want[mid..mid + 1000] {
+                                return Err(format!("wide content {i}: window in the middle yields other bytes"));
+                            }
+                            barrier.wait();
+                            let mut all = vec![];
+                            region.stream().read_to_end(&mut all).map_err(|e| format!("wide content {i} whole: {e}"))?;
+                            if all != want {
+                                return Err(format!("wide content {i}: whole stream yields other bytes"));
+                            }
+                            reads.fetch_add(3, Ordering::Relaxed);
+                            Ok(())
+                        }));
+                    }
+                    for h in hs {
+                        match h.join() {
+                            Ok(Ok(())) => {}
+                            Ok(Err(e)) => failures.push(e),
+                            Err(_) => failures.push("a reader thread panicked".into()),
+                        }
+                    }
+                }
             }
         }
     }
